@@ -166,6 +166,70 @@ func c01Case(o *hxlib.Out, c *circuit.Circuit, key, tape []byte, x []bool, idx i
 	return op, res.String(), handle
 }
 
+// addSelfOverwrites inserts gates that write one of their own input wires
+// (out = in1, out = in0, out = in0 = in1) on non-input wires that are already
+// defined, for every gate kind; the circuit stays well-formed (every wire that
+// was defined stays defined, no input wire is overwritten).  The random
+// generator produces such a gate only by chance.
+func addSelfOverwrites(r *hxlib.Rng, c *circuit.Circuit, o *hxlib.Out) *circuit.Circuit {
+	nin := c.Inputs.Size()
+	var gates []circuit.Gate
+	var stats circuit.Stats
+	defined := make([]int, 0, c.NumWires) // defined non-input wires
+	isDef := make([]bool, c.NumWires)
+	anyDefined := func() int {
+		k := r.Intn(nin + len(defined))
+		if k < nin {
+			return k
+		}
+		return defined[k-nin]
+	}
+	ins := 0
+	for gi, g := range c.Gates {
+		gates = append(gates, g)
+		stats[g.Op]++
+		if !isDef[g.Output] {
+			isDef[g.Output] = true
+			defined = append(defined, int(g.Output))
+		}
+		if (r.Intn(6) == 0 || (ins == 0 && gi == len(c.Gates)-1)) && ins < 12 {
+			op := circuit.Operation((ins + r.Intn(5)) % 5)
+			w := defined[r.Intn(len(defined))]
+			a := anyDefined()
+			n := circuit.Gate{Op: op, Output: circuit.Wire(w)}
+			form := r.Intn(3)
+			if op == circuit.INV {
+				form = 1
+			}
+			switch form {
+			case 0: // out = in1
+				n.Input0, n.Input1 = circuit.Wire(a), circuit.Wire(w)
+				o.Count("gate_out_eq_in1_" + hxlib.OpLetter[op])
+			case 1: // out = in0
+				n.Input0, n.Input1 = circuit.Wire(w), circuit.Wire(a)
+				if op == circuit.INV {
+					n.Input1 = 0
+				}
+				o.Count("gate_out_eq_in0_" + hxlib.OpLetter[op])
+			default: // out = in0 = in1
+				n.Input0, n.Input1 = circuit.Wire(w), circuit.Wire(w)
+				o.Count("gate_out_eq_in0_eq_in1_" + hxlib.OpLetter[op])
+			}
+			gates = append(gates, n)
+			stats[op]++
+			ins++
+		}
+	}
+	return &circuit.Circuit{
+		NumGates: len(gates),
+		NumWires: c.NumWires,
+		Inputs:   c.Inputs,
+		Outputs:  c.Outputs,
+		Gates:    gates,
+		Stats:    stats,
+	}
+}
+
 func b2i(b bool) int {
 	if b {
 		return 1
@@ -173,10 +237,10 @@ func b2i(b bool) int {
 	return 0
 }
 
-// usage: c01 <mode> [flags]; modes: garble, hist (hist.go)
+// usage: c01 <mode> [flags]; modes: garble, hist (hist.go), ext (ext.go)
 func main() {
 	if len(os.Args) < 2 {
-		fmt.Fprintln(os.Stderr, "usage: c01 garble|hist [flags]")
+		fmt.Fprintln(os.Stderr, "usage: c01 garble|hist|ext [flags]")
 		os.Exit(2)
 	}
 	switch os.Args[1] {
@@ -184,6 +248,8 @@ func main() {
 		os.Exit(c01(os.Args[2:]))
 	case "hist":
 		os.Exit(c01hist(os.Args[2:]))
+	case "ext":
+		os.Exit(c01ext(os.Args[2:]))
 	default:
 		fmt.Fprintf(os.Stderr, "unknown mode %q\n", os.Args[1])
 		os.Exit(2)
@@ -206,6 +272,10 @@ func c01(args []string) int {
 			continue
 		}
 		c := hxlib.GenCircuit(r, hxlib.GenOpts{MaxGates: maxGates, MaxIn: 6, Mix: mixes[i%len(mixes)], AllowReuse: i%3 == 0})
+		if i%3 == 0 {
+			// wire reuse includes a gate writing one of its OWN input wires: made certain here, per gate kind
+			c = addSelfOverwrites(r, c, o)
+		}
 		nin := c.Inputs.Size()
 		// A history of garblings on ONE circuit value: scratch buffers released
 		// and reused, the key buffer refilled in place or replaced, key sizes
